@@ -14,7 +14,7 @@ import (
 func main() {
 	var scs []mcx.Scenario
 	for _, p := range scn.All() {
-		scs = append(scs, mcx.Scenario{Name: p.Name(), Body: p.Body(), Cfg: mc.Config{TimerMode: p.Mode}, Bound: 2, ThoroughBound: 3, SwitchBound: 3, Family: "batch", MaxTime: 2 * time.Minute, AllowDeadlock: false})
+		scs = append(scs, mcx.Scenario{Name: p.Name(), Body: p.Body(), Cfg: mc.Config{TimerMode: p.Mode}, Bound: 3, ThoroughBound: 4, SwitchBound: 3, Family: "batch", MaxTime: 2 * time.Minute, AllowDeadlock: false})
 	}
 	mcx.Main("C11", scs, []string{
 		"time is the runtime's virtual clock; 'the oldest item has waited' is measured from the instant the source handed the item out",
